@@ -74,6 +74,14 @@ func runProperty(repo, verif, id, tier, only string, seed int) (rc int) {
 		fmt.Printf("unknown or unclaimed property %q\n", id)
 		return 2
 	}
+	// replay files of earlier runs of this property are stale
+	if only == "" {
+		if old, _ := filepath.Glob(filepath.Join(verif, "evidence", "violations", id+"-*.json")); len(old) > 0 {
+			for _, f := range old {
+				os.Remove(f)
+			}
+		}
+	}
 	kf, err := loadKnown(filepath.Join(verif, "known_findings.json"))
 	if err != nil {
 		fmt.Println("known_findings.json unreadable:", err)
